@@ -14,14 +14,14 @@ import (
 // ---------------------------------------------------------------------------------------
 
 type API struct {
-	P        *Program
-	L        *LayoutEngine
-	Iface    *types.Interface
-	Impl     *types.Named // the concrete client type behind NewUHPPOTE
-	Ops      map[string]*ssa.Function
-	OpNames  []string
-	Senders  map[*ssa.Function]string // functions that marshal a request: "directed" | "broadcast"
-	Marshal  *ssa.Function
+	P           *Program
+	L           *LayoutEngine
+	Iface       *types.Interface
+	Impl        *types.Named // the concrete client type behind NewUHPPOTE
+	Ops         map[string]*ssa.Function
+	OpNames     []string
+	Senders     map[*ssa.Function]string // functions that marshal a request: "directed" | "broadcast"
+	Marshal     *ssa.Function
 	UnmarshalAs *ssa.Function
 }
 
@@ -103,17 +103,17 @@ func NewAPI(p *Program, l *LayoutEngine) (*API, error) {
 }
 
 type OpPath struct {
-	Cond      string
-	State     *PathState
-	Outcome   string
-	Detail    string
-	Sends     []SendRec
-	Results   map[string]*Term
-	ErrNil    int // 1 nil, 0 non-nil, -1 unknown
-	ErrTerm   string
-	Events    []Event
-	SendErr   int // 1 nil, 0 non-nil, -1 n/a
-	Stores    []Event
+	Cond    string
+	State   *PathState
+	Outcome string
+	Detail  string
+	Sends   []SendRec
+	Results map[string]*Term
+	ErrNil  int // 1 nil, 0 non-nil, -1 unknown
+	ErrTerm string
+	Events  []Event
+	SendErr int // 1 nil, 0 non-nil, -1 n/a
+	Stores  []Event
 }
 
 type SendRec struct {
